@@ -1,0 +1,25 @@
+//go:build verif
+
+package hotstuffpb
+
+import "github.com/relab/hotstuff"
+
+// Round-trip compositions of the conversion functions. They exist only so that /verif/govc
+// can state and check "decode(encode(x)) means x" as a contract over the contracts of the two
+// conversions (see contracts_verif.go); they are never compiled into a binary.
+
+func verifRoundTripSignature(sig hotstuff.QuorumSignature) hotstuff.QuorumSignature {
+	return QuorumSignatureFromProto(QuorumSignatureToProto(sig))
+}
+
+func verifRoundTripPartialCert(cert hotstuff.PartialCert) hotstuff.PartialCert {
+	return PartialCertFromProto(PartialCertToProto(cert))
+}
+
+func verifRoundTripQuorumCert(qc hotstuff.QuorumCert) hotstuff.QuorumCert {
+	return QuorumCertFromProto(QuorumCertToProto(qc))
+}
+
+func verifRoundTripTimeoutCert(tc hotstuff.TimeoutCert) hotstuff.TimeoutCert {
+	return TimeoutCertFromProto(TimeoutCertToProto(tc))
+}
